@@ -18,6 +18,6 @@ First read the code that makes the property hold (find it yourself from the prop
 
 Deliverables in {wt}-out/:
   - patch.diff : `git -C {wt} diff` of your change (source files only).
-  - demo.rs : a self-contained Rust integration test file (uses only the public API of the crate under test plus std; `#[test] fn demo() {{ ... }}`) that PASSES on the unchanged code and FAILS with your change, demonstrating a concrete violation of the property. It will be copied to crates/<demo_crate>/tests/seeded_demo.rs and run with `cargo test -p <demo_crate> --test seeded_demo`. Verify both directions yourself (use `git stash` / `git stash pop` inside {wt}).
+  - demo.rs : a self-contained Rust integration test file (uses only the public API of the crate under test plus std; `#[test] fn demo() {{ ... }}`) that PASSES on the unchanged code and FAILS with your change, demonstrating a concrete violation of the property. It will be copied to crates/<demo_crate>/tests/seeded_demo.rs and run with `cargo test -p <demo_crate> --test seeded_demo`. Verify both directions yourself. NEVER use `git stash` (the stash is shared by all worktrees of the repository and other agents work in parallel): use `git -C {wt} diff > {wt}-out/patch.diff; git -C {wt} apply -R {wt}-out/patch.diff; <run demo>; git -C {wt} apply {wt}-out/patch.diff`. Note apollo-compiler has `autotests = false`: to run the demo there, temporarily append `[[test]]` / `name = "seeded_demo"` to crates/apollo-compiler/Cargo.toml and revert it afterwards (it must not be part of patch.diff; the validator adds it itself).
   - meta.json : {{"property": "{pid}", "demo_crate": "apollo-compiler" | "apollo-parser" | "apollo-smith", "summary": "<one sentence: what was changed>", "needs": "<what specific input / sequence / configuration is needed for the violation to manifest>", "files": ["..."], "ran": ["<the commands you ran and their outcome, e.g. cargo test --workspace: N passed 0 failed; demo passes clean, fails patched>"]}}
 When done, leave the worktree with your change applied, and reply with the content of meta.json. If an attempted change makes existing tests fail, pick a different change. Work autonomously; do not ask questions.""")
